@@ -15,37 +15,38 @@ import (
 // well-formed by construction; switches only narrow the language for checks
 // whose oracle needs a precondition (each use is counted in evidence).
 type Cfg struct {
-	MaxFiles    int  // 1..n files
-	MaxDefs     int  // per kind and file (default 4)
-	Annotations bool // annotations on every node kind
-	NastyLits   bool // literals with quotes, backslash pairs, punctuation
-	RawCtl      bool // literals may contain raw newlines / tabs (not Go-safe)
-	CppStuff    bool // cpp_include, cpp_type
-	Consts      bool
-	Defaults    bool
-	Services    bool
-	NegIDs      bool
-	ExpDoubles  bool // exponent spellings of doubles (known finding S1 when broken)
-	HexIDs      bool // field ids spelled 0x.. (known finding S2 when broken)
-	IntSpell    bool // hex / octal / +signed spellings of integer constants and enum values
-	GoSafe      bool // only shapes the Go backend documents as supported
-	SameBase    bool // two included files may share a base name (in different directories)
-	EnumViaTypedef bool // constants may name enum values through a typedef of the enum
-	EmptyEnums  bool
-	Comments    bool // leading comments recorded on definitions
-	SharedNS    bool // several files may share one go namespace
-	NameStress  bool // names that stress naming styles and collision renaming
-	NoNamespace bool // some files have no go namespace
-	SelfRef     bool // structs may refer to themselves through optional fields
-	MapStructKey bool // struct-like map keys
-	UnionDefaults bool
+	MaxFiles          int  // 1..n files
+	MaxDefs           int  // per kind and file (default 4)
+	Annotations       bool // annotations on every node kind
+	NastyLits         bool // literals with quotes, backslash pairs, punctuation
+	RawCtl            bool // literals may contain raw newlines / tabs (not Go-safe)
+	CppStuff          bool // cpp_include, cpp_type
+	Consts            bool
+	Defaults          bool
+	Services          bool
+	NegIDs            bool
+	ExpDoubles        bool // exponent spellings of doubles (known finding S1 when broken)
+	HexIDs            bool // field ids spelled 0x.. (known finding S2 when broken)
+	IntSpell          bool // hex / octal / +signed spellings of integer constants and enum values
+	GoSafe            bool // only shapes the Go backend documents as supported
+	SameBase          bool // two included files may share a base name (in different directories)
+	EnumViaTypedef    bool // constants may name enum values through a typedef of the enum
+	EnumViaTypedefFar bool // ... also when the typedef chain crosses more file boundaries than the binding can express (known finding)
+	EmptyEnums        bool
+	Comments          bool // leading comments recorded on definitions
+	SharedNS          bool // several files may share one go namespace
+	NameStress        bool // names that stress naming styles and collision renaming
+	NoNamespace       bool // some files have no go namespace
+	SelfRef           bool // structs may refer to themselves through optional fields
+	MapStructKey      bool // struct-like map keys
+	UnionDefaults     bool
 }
 
 // Full is the configuration used when nothing needs narrowing.
 func Full() Cfg {
 	return Cfg{MaxFiles: 4, MaxDefs: 4, Annotations: true, NastyLits: true, CppStuff: true, Consts: true, Defaults: true,
 		Services: true, NegIDs: true, ExpDoubles: true, HexIDs: true, IntSpell: true, SameBase: true, EnumViaTypedef: true,
-		EmptyEnums: true, Comments: true, SelfRef: true, MapStructKey: true, RawCtl: true, UnionDefaults: true}
+		EnumViaTypedefFar: true, EmptyEnums: true, Comments: true, SelfRef: true, MapStructKey: true, RawCtl: true, UnionDefaults: true}
 }
 
 type gen struct {
@@ -75,7 +76,7 @@ func (g *gen) typeName() string  { return g.name("T") }
 func (g *gen) fieldName() string { return g.name("f") }
 
 func (g *gen) intn(lo, hi int, label string) int { return rapid.IntRange(lo, hi).Draw(g.t, label) }
-func (g *gen) coin(label string) bool          { return rapid.Bool().Draw(g.t, label) }
+func (g *gen) coin(label string) bool            { return rapid.Bool().Draw(g.t, label) }
 func (g *gen) p(num, den int, label string) bool {
 	return rapid.IntRange(1, den).Draw(g.t, label) <= num
 }
@@ -130,8 +131,11 @@ func Gen(t *rapid.T, cfg Cfg) *Program {
 			f.Includes = rapid.Permutation(f.Includes).Draw(t, "incperm")
 		}
 		for _, inc := range f.Includes {
+			// thriftgo looks an include up relative to the working directory first and
+			// relative to the including file second: use the includer-relative spelling
+			// only when it cannot be mistaken for another file of the program
 			rel, err := filepath.Rel(path.Dir(f.Path), inc.Path)
-			if err != nil {
+			if err != nil || (rel != inc.Path && used[path.Clean(rel)]) || g.p(1, 4, "cwdrelative") {
 				rel = inc.Path
 			}
 			f.IncludeLit = append(f.IncludeLit, rel)
@@ -664,7 +668,7 @@ func (g *gen) genValue(t *Type, depth int) *Value {
 		v := &Value{Kind: VIdent, RefEnum: e, RefVal: m.Name}
 		// the enum can be named directly, or (optionally) through the typedef the type was written with
 		sel := e
-		if g.cfg.EnumViaTypedef && t.Ref != nil && t.Ref.Kind == KTypedef && g.coin("viatypedef") {
+		if g.cfg.EnumViaTypedef && t.Ref != nil && t.Ref.Kind == KTypedef && (g.cfg.EnumViaTypedefFar || !viaFar(g.file, t.Ref)) && g.coin("viatypedef") {
 			sel = t.Ref
 			v.Via = t.Ref
 		}
@@ -755,6 +759,31 @@ func (g *gen) genValue(t *Type, depth int) *Value {
 		return v
 	}
 	return nil
+}
+
+// viaFar reports whether naming an enum through typedef sel from file `from`
+// crosses more file boundaries than a constant binding can express: written
+// locally (Alias.A) the chain may leave the file once, written with an include
+// prefix (inc.Alias.A) it must stay inside that include.
+func viaFar(from *File, sel *Def) bool {
+	allowed := 0
+	if sel.File == from {
+		allowed = 1
+	}
+	hops := 0
+	cur := sel.File
+	for d := sel; d != nil && d.Kind == KTypedef; {
+		nxt := d.Type.Ref
+		if nxt == nil {
+			break
+		}
+		if nxt.File != cur {
+			hops++
+			cur = nxt.File
+		}
+		d = nxt
+	}
+	return hops > allowed
 }
 
 // containsSame is a conservative "may denote the same value" test used to keep
